@@ -530,15 +530,20 @@ def run_lattice(case):
         if bad:
             v.append(viol("baseline-differs-from-definition:%s" % kind, "1 thread / default memory: %s" % (bad,)))
     ran = 0
+    import contextlib
+    import dask
     for nth in case["threads"]:
         for mem in case["memories"]:
             c2 = dict(cfg, n_threads=nth)
             if mem:
                 c2["coo_initial_memory"] = mem
+            # size of the dask worker pool: default (one per core), a single worker, fewer workers than chunks
+            pool = case.get("pools", [None])[(nth + len(mem or "")) % len(case.get("pools", [None]))]
             try:
-                est = build_estimator(kind, c2)
-                out = est.fit_transform(corpus)
-                t_out = est.transform(corpus * 3)
+                with (dask.config.set(num_workers=pool) if pool else contextlib.nullcontext()):
+                    est = build_estimator(kind, c2)
+                    out = est.fit_transform(corpus)
+                    t_out = est.transform(corpus * 3)
             except Exception as e:
                 v.append(viol("exception:%s:%s" % (kind, type(e).__name__), "n_threads=%d coo_initial_memory=%s raised %r (docs %s)" % (nth, mem, e, docs)))
                 continue
@@ -565,7 +570,7 @@ def _lattice_cases(tier, compiled=False):
             d = docs if kind != "multiset" else ["|".join(x) if x else "" for x in docs]
             for radius in (1, 3):
                 for n_iter in (0, 1):
-                    yield {"kind": kind, "docs": d, "radius": radius, "n_iter": n_iter, "threads": threads, "memories": mems}
+                    yield {"kind": kind, "docs": d, "radius": radius, "n_iter": n_iter, "threads": threads, "memories": mems, "pools": [None, 1, 2, 3]}
 
 
 # ---------------------------------------------------------------------------------------------
@@ -674,7 +679,7 @@ def subchecks(tier, seed):
     lt = list(_lattice_cases(tier))
     subs.append(Sub(
         "b_threads_memory_lattice", "I", lambda: iter(lt), run_lattice, total=len(lt), kind="configurations",
-        describe="four vectorizers x corpora x radius{1,3} x n_iter{0,1} x n_threads %s x coo_initial_memory %s: fit_transform equals the (1 thread, default memory) result and the definition; transform of the corpus repeated 3x equals 3x" % (lt[0]["threads"], lt[0]["memories"]),
+        describe="four vectorizers x corpora x radius{1,3} x n_iter{0,1} x n_threads %s x coo_initial_memory %s x dask worker-pool size {default, 1, 2, 3} (rotated over the lattice): fit_transform equals the (1 thread, default memory) result and the definition; transform of the corpus repeated 3x equals 3x" % (lt[0]["threads"], lt[0]["memories"]),
         nontrivial_rule="every case"))
     ltn = list(_lattice_cases(tier, compiled=True))
     subs.append(Sub(
